@@ -524,6 +524,49 @@ def wl_big_full_tables(ctx, rng, case):
     run_guarded(ctx, case, body)
 
 
+def wl_long_clusters(ctx, rng, case):
+    """ONE cluster of 100 .. 300 hashes (one or two quotients, remainders added in descending / ascending / random order, so that single
+    insertions shift more than a hundred slots) in tables of 256 .. 2048 slots that may or may not grow: membership, the hash list and the
+    element count after every insertion, then removals from the front, the middle and the end of the cluster"""
+    import probables as P
+    from probables.exceptions import QuotientFilterError
+
+    q = rng.choice([8, 8, 9, 10, 11])
+    auto = rng.random() < 0.6
+    n = rng.choice([100, 129, 140, 200, 300])
+    r = 32 - q
+    quot = rng.choice([0, 5, (1 << q) - 1, (1 << q) - 60, rng.randrange(1 << q)])
+    rems = rng.sample(range(1, min(1 << r, 100000)), n)
+    order = rng.choice(["descending", "ascending", "random"])
+    rems = sorted(rems, reverse=(order == "descending")) if order != "random" else rems
+    case.desc = {"quotient": q, "auto_expand": auto, "cluster": n, "order": order, "kind": "one long cluster"}
+    f = P.QuotientFilter(quotient=q, auto_expand=auto)
+    S = set()
+    for i, rem in enumerate(rems):
+        h = mk(q, quot if i % 7 else (quot + 1) % (1 << q), rem)
+        try:
+            f.add_alt(h)
+            S.add(h)
+        except QuotientFilterError:
+            break
+        ctx.counters["oracle_evaluations"] += 1
+        if f.elements_added != len(S):
+            ctx.fail(f"elements_added differs from the number of stored hashes after insertion #{i + 1} into one long cluster (quotient now {f.quotient})", got=f.elements_added, want=len(S))
+        if not f.check_alt(h):
+            ctx.fail(f"a hash is reported absent right after it was added to a long cluster (insertion #{i + 1})", hash=h)
+        if i % 40 == 39 or i == len(rems) - 1:
+            ctx.check(sorted(f.get_hashes()) == sorted(S), f"get_hashes() is not the set of stored hashes after {i + 1} insertions into one long cluster")
+    for h in rng.sample(sorted(S), min(len(S), 30)) + [min(S), max(S)]:
+        if h in S:
+            f.remove_alt(h)
+            S.discard(h)
+            ctx.check(f.elements_added == len(S) and not f.check_alt(h), "removal from a long cluster left the hash or the count behind", hash=h, got=f.elements_added, want=len(S))
+    ctx.check(sorted(f.get_hashes()) == sorted(S), "get_hashes() is not the set of stored hashes after removals from one long cluster")
+    ctx.count("long_cluster_cases")
+    ctx.count("full_probes")
+    case.nontrivial = True
+
+
 def wl_wide_quotient(ctx, rng, case):
     """quotients around the remainder-width boundaries (remainder 16 / 17 bits: the slot array changes its element type), a few hundred hashes"""
     import probables as P
@@ -595,6 +638,7 @@ PROP = Prop(
         Workload("full_tables", wl_full_tables, quick=80, thorough=3000),
         Workload("resize_merge", wl_resize_merge, quick=200, thorough=10000),
         Workload("wide_quotient", wl_wide_quotient, quick=5, thorough=100),
+        Workload("long_clusters", wl_long_clusters, quick=12, thorough=240),
         Workload("big_full_tables", wl_big_full_tables, quick=12, thorough=240),
         Workload("history", wl_history, quick=500, thorough=40000),
         Workload("exhaustive_q3", wl_exhaustive_q3, quick=256, thorough=256, exhaustive=True),
